@@ -400,8 +400,17 @@ func loadsReachedBy(st *ssa.Store, al ssa.Value) []ssa.Value {
 // Slice computes the backward slice of v inside its function: every value v is computed from (operands, transitively,
 // through phis, calls, loads of local cells and field addresses), bounded in size. Local cells (Alloc) contribute the stores
 // that can reach the use: a direct store is dropped when another direct store certainly lies between it and the use.
-func Slice(v ssa.Value) map[ssa.Value]bool {
+func Slice(v ssa.Value) map[ssa.Value]bool { return sliceOpt(v, true) }
+
+// SliceShallow is Slice without looking into helpers: the result holds values of v's own function only.
+func SliceShallow(v ssa.Value) map[ssa.Value]bool { return sliceOpt(v, false) }
+
+func sliceOpt(v ssa.Value, deep bool) map[ssa.Value]bool {
 	out := map[ssa.Value]bool{}
+	inter := 0
+	if !deep {
+		inter = 99
+	}
 	var walk func(x ssa.Value, depth int)
 	walkAlloc := func(al *ssa.Alloc, user ssa.Instruction, depth int) {
 		key := [2]interface{}{al, user}
@@ -481,10 +490,43 @@ func Slice(v ssa.Value) map[ssa.Value]bool {
 				}
 				walk(*op, depth+1)
 			}
+			// a small same-package helper that computes the value (an extracted accessor or a one-expression helper) is looked into: what
+			// its results are computed from is part of what x is computed from
+			if call, ok := x.(*ssa.Call); ok {
+				if h := smallHelper(call, x.Parent()); h != nil && inter < 2 {
+					inter++
+					for _, r := range Returns(h) {
+						if r.Block() == h.Recover {
+							continue
+						}
+						for i := range r.Results {
+							walk(RetVal(r, i), depth+1)
+						}
+					}
+					inter--
+				}
+			}
 		}
 	}
 	walk(v, 0)
 	return out
+}
+
+// smallHelper: the call statically calls a function of the caller's own package that is small (at most 40 instructions, no calls through
+// interfaces or function values excepted) and not recursive into the caller.
+func smallHelper(call *ssa.Call, caller *ssa.Function) *ssa.Function {
+	h := call.Call.StaticCallee()
+	if h == nil || caller == nil || h.Blocks == nil || h == caller || h.Pkg == nil || h.Pkg != caller.Pkg || !InRepo(h) {
+		return nil
+	}
+	n := 0
+	for _, b := range h.Blocks {
+		n += len(b.Instrs)
+	}
+	if n > 40 {
+		return nil
+	}
+	return h
 }
 
 // SliceHasCall: does the slice contain a call that may call target?
